@@ -19,6 +19,19 @@ CFG = ("SPECIFICATION Spec\nCONSTANTS\n  Shapes <- {T}Shapes\n  SpacingsOf <- {T
 REL = 1e-5
 
 
+def power_norm(pr: Dict[str, Any], key: str):
+    """CubGrad / QuartGrad / SumGrad of Regulariser.tla evaluated from the probe's exact Jacobian in unbounded rationals; other keys as emitted."""
+    if key not in ("cubgrad", "quartgrad", "sumgrad"):
+        return pr[key]
+    J = F(pr["J"])
+    ent = [v for row in J for v in row]
+    if key == "cubgrad":
+        return float(sum(abs(v) ** 3 for v in ent))
+    if key == "quartgrad":
+        return float(sum(v ** 4 for v in ent))
+    return float(sum(ent))
+
+
 def val_at(t: torch.Tensor, idx: List[int]) -> float:
     return float(t[(0, 0) + tuple(reversed(idx))])
 
@@ -104,8 +117,8 @@ def check_energies(ctx: Ctx, c: Dict[str, Any]) -> None:
             if out is None:
                 continue
             for pr in c["probes"]:
-                e = pr[key[0]][key[1]] if isinstance(key, tuple) else pr[key]
-                e = float(fl(F(e)))
+                e = pr[key[0]][key[1]] if isinstance(key, tuple) else power_norm(pr, key)
+                e = float(fl(F(e))) if not isinstance(e, float) else e
                 g = val_at(out, pr["i"])
                 if not close(g, e):
                     bad(name, f"mode={mode}: value {g} at interior sample {pr['i']}, analytic {e}", mode=ms, what="value")
@@ -122,7 +135,7 @@ def check_energies(ctx: Ctx, c: Dict[str, Any]) -> None:
         if out is None:
             continue
         for pr in c["probes"]:
-            e = fnq(float(fl(F(pr[key]))))
+            e = fnq(power_norm(pr, key) if key in ("cubgrad", "quartgrad", "sumgrad") else float(fl(F(pr[key]))))
             g = val_at(out, pr["i"])
             if not (abs(g - e) <= 1e-4 * max(1.0, abs(e))):
                 bad(name, f"value {g} at interior sample {pr['i']}, definition gives {e}", what="value")
